@@ -332,6 +332,9 @@ class BackupNode(Entity):
         self._replications_applied = 0
         self._backup_reads = 0
         self._last_applied_seq = 0
+        # Highest sequence number received per key: the network may reorder
+        # Replicate messages, and an older write must never overwrite a newer one.
+        self._key_seq: dict[str, int] = {}
 
     def downstream_entities(self) -> list[Entity]:
         return [self._primary]
@@ -375,11 +378,17 @@ class BackupNode(Entity):
         seq = metadata.get("seq", 0)
         ack_future: SimFuture | None = metadata.get("ack_future")
 
-        # Apply locally
-        yield from self._store.put(key, value)
-
-        self._replications_applied += 1
-        self._last_applied_seq = seq
+        if seq < self._key_seq.get(key, 0):
+            # Stale: a newer write of this key already arrived (messages were
+            # reordered in flight). Do not overwrite it; spend the store's write
+            # latency so the ack still follows the newer write's application.
+            yield getattr(self._store, "write_latency", 0.0)
+        else:
+            # Apply locally
+            self._key_seq[key] = seq
+            yield from self._store.put(key, value)
+            self._replications_applied += 1
+        self._last_applied_seq = max(self._last_applied_seq, seq)
 
         # Resolve ack future if present (for SEMI_SYNC/SYNC)
         if ack_future is not None:
